@@ -138,6 +138,7 @@ func (tx *Tx) Commit() error {
 		off            int64
 		e              *Entry
 		bucketMetaTemp BucketMeta
+		pendingIdx     []pendingBPTreeIdx
 	)
 
 	if tx.db == nil {
@@ -229,8 +230,18 @@ func (tx *Tx) Commit() error {
 		}
 
 		if entry.Meta.ds == DataStructureBPTree {
-			tx.buildBPTreeIdx(bucket, entry, e, off, countFlag)
+			if tx.db.opt.EntryIdxMode == HintBPTSparseIdxMode {
+				tx.buildBPTreeIdx(bucket, entry, e, off, tx.db.ActiveFile.fileID, countFlag)
+			} else {
+				// index the entry only once every entry of the transaction is
+				// written: a commit that fails half-way must leave the index alone
+				pendingIdx = append(pendingIdx, pendingBPTreeIdx{bucket, entry, e, off, tx.db.ActiveFile.fileID})
+			}
 		}
+	}
+
+	for _, p := range pendingIdx {
+		tx.buildBPTreeIdx(p.bucket, p.entry, p.e, p.off, p.fileID, countFlag)
 	}
 
 	tx.buildIdxes(writesLen)
@@ -376,12 +387,20 @@ func (tx *Tx) buildIdxes(writesLen int) {
 	}
 }
 
-func (tx *Tx) buildBPTreeIdx(bucket string, entry, e *Entry, off int64, countFlag bool) {
+// pendingBPTreeIdx is a B+ tree index update deferred to the end of Commit.
+type pendingBPTreeIdx struct {
+	bucket   string
+	entry, e *Entry
+	off      int64
+	fileID   int64
+}
+
+func (tx *Tx) buildBPTreeIdx(bucket string, entry, e *Entry, off int64, fileID int64, countFlag bool) {
 	if tx.db.opt.EntryIdxMode == HintBPTSparseIdxMode {
 		newKey := []byte(bucket)
 		newKey = append(newKey, entry.Key...)
 		tx.db.ActiveBPTreeIdx.Insert(newKey, e, &Hint{
-			fileID:  tx.db.ActiveFile.fileID,
+			fileID:  fileID,
 			key:     newKey,
 			meta:    entry.Meta,
 			dataPos: uint64(off),
@@ -395,7 +414,7 @@ func (tx *Tx) buildBPTreeIdx(bucket string, entry, e *Entry, off int64, countFla
 			tx.db.BPTreeIdx[bucket] = NewTree()
 		}
 		_ = tx.db.BPTreeIdx[bucket].Insert(entry.Key, e, &Hint{
-			fileID:  tx.db.ActiveFile.fileID,
+			fileID:  fileID,
 			key:     entry.Key,
 			meta:    entry.Meta,
 			dataPos: uint64(off),
